@@ -89,6 +89,10 @@ func ruleFsWho(p *Prog, r *RuleResult) {
 				r.exempt(k.key(fname, callee), p.IPos(i), reason)
 				return
 			}
+			if callee == "os.Remove" && p.Rel(f) == "app" {
+				r.exempt(k.key(fname, callee), p.IPos(i), "source removal in the CLI: every os.Remove of package app is held to R-REMOVE-ORDER (flag, close, write and size obligations)")
+				return
+			}
 			// a file created only to be handed to the CPU profiler (wherever that code lives in the CLI)
 			if callee == "os.Create" && p.Rel(f) == "app" {
 				if cv, ok := i.(ssa.Value); ok {
@@ -331,16 +335,72 @@ func ruleExcl(p *Prog, r *RuleResult) {
 
 func ruleRemoveOrder(p *Prog, r *RuleResult) {
 	nrem := 0
+	isRemove := func(i ssa.Instruction) bool {
+		c := callOf(i)
+		return c != nil && (isPkgFunc(c, "os", "Remove") || isPkgFunc(c, "os", "RemoveAll"))
+	}
+	isStreamClose := func(i ssa.Instruction) bool {
+		c, ok := i.(*ssa.Call)
+		if !ok {
+			return false
+		}
+		o := calleeObj(&c.Call)
+		if o == nil || o.Name() != "Close" {
+			return false
+		}
+		sig := o.Type().(*types.Signature)
+		if sig.Recv() == nil {
+			return false
+		}
+		rn := namedOf(sig.Recv().Type())
+		return rn != nil && rn.Obj().Pkg() != nil && rn.Obj().Pkg().Path() == p.ModPath+"/io" && (rn.Obj().Name() == "Writer" || rn.Obj().Name() == "Reader")
+	}
+	// the functions to analyse: those that close the compressed stream and (directly or through a helper) remove a
+	// file; a helper that only removes is covered by its analysed callers, or analysed itself if it has none
+	covered := map[*ssa.Function]bool{}
+	var todo []*ssa.Function
 	for _, f := range p.ModFns {
-		if p.Rel(f) != "app" {
+		if p.Rel(f) != "app" || f.Parent() != nil {
 			continue
 		}
-		var removes []*ssa.Call
+		hasClose := false
 		eachInstr(f, func(i ssa.Instruction) {
-			if c, ok := i.(*ssa.Call); ok && (isPkgFunc(&c.Call, "os", "Remove") || isPkgFunc(&c.Call, "os", "RemoveAll")) {
-				removes = append(removes, c)
+			if isStreamClose(i) {
+				hasClose = true
 			}
 		})
+		d, v := p.liftedSites(f, isRemove)
+		if hasClose && len(d)+len(v) > 0 {
+			todo = append(todo, f)
+			for _, vi := range v {
+				if h := helperCallee(vi, FnPkg(f)); h != nil {
+					covered[h] = true
+					for _, hh := range p.helperClosure(h) {
+						covered[hh] = true
+					}
+				}
+			}
+		}
+	}
+	for _, f := range p.ModFns {
+		if p.Rel(f) != "app" || f.Parent() != nil || covered[f] {
+			continue
+		}
+		already := false
+		for _, t := range todo {
+			if t == f {
+				already = true
+			}
+		}
+		d, _ := p.liftedSites(f, isRemove)
+		if !already && len(d) > 0 {
+			todo = append(todo, f)
+		}
+	}
+	for _, f := range todo {
+		var removes []ssa.Instruction
+		d, v := p.liftedSites(f, isRemove)
+		removes = append(append(removes, d...), v...)
 		if len(removes) == 0 {
 			continue
 		}
@@ -444,7 +504,27 @@ func ruleRemoveOrder(p *Prog, r *RuleResult) {
 			if okW {
 				r.ok(fmt.Sprintf("%s unreachable from the error edge of each of the %d Write call(s)", key, len(writes)), p.IPos(rm))
 			} else if len(writes) == 0 {
-				r.fail(key+"#write-error", p.IPos(rm), "no Write call found in the function that removes the source")
+				// the copy loop may have been moved into a helper: the clause is then not decided on this tree
+				isWrite := func(i ssa.Instruction) bool {
+					c := callOf(i)
+					if c == nil {
+						return false
+					}
+					o := calleeObj(c)
+					return o != nil && o.Name() == "Write" && o.Type().(*types.Signature).Recv() != nil
+				}
+				_, via := p.liftedSites(f, isWrite)
+				reloc := false
+				for _, vi := range via {
+					if instrDominates(vi, rm) {
+						reloc = true
+					}
+				}
+				if reloc {
+					r.info(key+": the copy loop (Write calls) lives in a helper called before the removal; the clause 'a failed write prevents the removal' is NOT DECIDED on this tree (relocated code)", p.IPos(rm))
+				} else {
+					r.fail(key+"#write-error", p.IPos(rm), "no Write call found in the function that removes the source")
+				}
 			}
 			// output written through a buffered writer: a successful Flush must precede the removal
 			if len(buffered) > 0 {
